@@ -8,6 +8,7 @@ import QF.Core.VwExpr
     func Insert(colNames []string, conf SQLConfig) string                       (internal/io/sql/stmt.go)   → SqB
     func NewArgBuilder(col column.Column) (ArgBuilder, error)                   (internal/io/sql/types.go)  → SqAB per package
     func (qf QFrame) ColumnNames() []string                                     (qframe.go)                 → SqCN
+    func (qf QFrame) ColumnTypes() []types.DataType                             (qframe.go)                 → SqCT
     func (qf QFrame) ToSQL(tx *sql.Tx, confFuncs ...qsql.ConfigFunc) error      (qframe.go)                 → SqT
 
 The extractor (go/cmd/extract/sqlwast.go) walks the bodies of these functions of /repo's current source and writes what it
@@ -277,6 +278,55 @@ def SqCN.result (p : SqCN) (names : List Bytes) : Option (List Bytes) :=
 def SqCN.hasOpaque : SqCN → Bool
   | .opaque _ => true
   | .alloc k | .setName k => k.hasOpaque
+  | .forCols t k => t.hasOpaque || k.hasOpaque
+  | .ret | .done => false
+
+/-! ## (C') `ColumnTypes` -/
+
+/-- `func (qf QFrame) ColumnTypes() []types.DataType` (qframe.go), statement by statement. -/
+inductive SqCT where
+  /-- `types := make([]types.DataType, len(qf.columns))` -/
+  | alloc (k : SqCT)
+  /-- `for i, col := range qf.columns { body }` -/
+  | forCols (body k : SqCT)
+  /-- `types[i] = <column>.DataType()` for the position and the element of the loop -/
+  | setType (k : SqCT)
+  /-- `return types` -/
+  | ret
+  | done
+  | opaque (txt : String)
+  deriving DecidableEq, Repr, Inhabited
+
+structure SqCTSt where
+  res : Option (List Bytes) := none
+  ret : Bool := false
+  deriving DecidableEq, Repr
+
+/-- `dts`: per column of the frame, in order, what its `DataType()` returns (`none`: no meaning); a fresh `[]types.DataType`
+holds empty strings -/
+def SqCT.run (dts : List (Option Bytes)) : SqCT → Option (Nat × Option Bytes) → SqCTSt → Option SqCTSt
+  | .alloc k, c, σ => k.run dts c { σ with res := some (List.replicate dts.length []) }
+  | .forCols body k, c, σ =>
+    match loopIdx (fun i n σ => body.run dts (some (i, n)) σ) (fun σ => σ.ret) 0 dts σ with
+    | some σ' => if σ'.ret then some σ' else k.run dts c σ'
+    | none => none
+  | .setType k, c, σ =>
+    match c, σ.res with
+    | some (i, some t), some r => if i < r.length then k.run dts c { σ with res := some (r.set i t) } else none
+    | _, _ => none
+  | .ret, _, σ => if σ.res.isSome then some { σ with ret := true } else none
+  | .done, _, σ => some σ
+  | .opaque _, _, _ => none
+
+/-- what `qf.ColumnTypes()` returns on a frame whose columns answer `dts` to `DataType()` -/
+def SqCT.result (p : SqCT) (dts : List (Option Bytes)) : Option (List Bytes) :=
+  match p.run dts none {} with
+  | some σ => if σ.ret then σ.res else none
+  | none => none
+
+def SqCT.hasOpaque : SqCT → Bool
+  | .opaque _ => true
+  | .alloc k | .setType k => k.hasOpaque
   | .forCols t k => t.hasOpaque || k.hasOpaque
   | .ret | .done => false
 
